@@ -819,23 +819,17 @@ def prog_one(ctx, sf, spec, cfg):
         ctx.fail("symbolic-program-raises", f"the substituted program runs, the symbolic one raises "
                  f"{type(e).__name__}: {str(e)[:200]} [{cfg}]", rp)
         return
-    tol = (1e-6 if cfg["backend"] == "fock" else 1e-8) * max(1.0, float(np.max(np.abs(ref))))
+    # the finite-squeezing homodyne projection of the simulators has condition number ~1e7: rounding differences of
+    # the parameters (1e-16) surface as ~1e-8 in the conditional state; without measurements 1e-14 is observed
+    has_meas = any(op["cls"] == "MeasureHomodyne" for op in spec["ops"])
+    tol = (1e-6 if (cfg["backend"] == "fock" or has_meas) else 1e-8) * max(1.0, float(np.max(np.abs(ref))))
     if got.shape != ref.shape:
         ctx.fail("symbolic-vs-substituted-state", f"final states have different shapes [{cfg}]", rp)
         return
     d = float(np.max(np.abs(got - ref)))
     if d > tol:
-        # the simulators amplify rounding differences of the parameters (finite-squeezing homodyne projection):
-        # measure the noise floor with the substituted twin's parameters perturbed by 1e-13 relative
-        try:
-            ref2, _ = run(build_prog(sf, spec, True, jitter=1e-13), None)
-            floor = float(np.max(np.abs(ref2 - ref)))
-        except Exception:
-            floor = 0.0
-        if d > max(tol, 10 * floor):
-            ctx.fail("symbolic-vs-substituted-state", f"final states differ by {d} (noise floor {floor}) [{cfg}]", rp)
-            return
-        ctx.tally("prog_diff_within_noise_floor")
+        ctx.fail("symbolic-vs-substituted-state", f"final states differ by {d} [{cfg}]", rp)
+        return
     if cfg["optimize"] == "no" and got_applied != ref_applied:
         ctx.fail("symbolic-vs-substituted-applied", f"applied command lists differ: {got_applied} vs {ref_applied} [{cfg}]", rp)
         return
